@@ -778,6 +778,11 @@ func (f *Frame) havocSpecTarget(m string, env *Env, st *State) {
 		n := strings.TrimPrefix(m, "H.")
 		g.heapGet(st, n)
 		g.heapHavoc(st, n)
+	case env.cellVars[m] != nil:
+		// a captured variable (closure contracts)
+		c := env.cellVars[m]
+		g.allocBound = ""
+		g.store(st, &Addr{Cell: c}, g.freshVal("c_"+c.name+"_h", c.goT, st))
 	case strings.HasPrefix(m, "map(") && strings.HasSuffix(m, ")"):
 		ex, err := parseSpecExpr(m[4 : len(m)-1])
 		if err != nil {
@@ -1155,14 +1160,56 @@ func (f *Frame) applyIterates(ct *Contract, fn *ssa.Function, args []Val, resT t
 		t := env.trBool(c.Expr)
 		g.oblige("callpre", shortKey(relName(clo.Fn))+":"+c.Label+"_holds_before_the_iteration", f.props(), f.fn, reach, t, c.Src, pos)
 	}
-	// everything the closure may touch
-	f.havocAll(st)
-	for _, b := range clo.Bindings {
-		f.havocReachable(b, st)
+	// step relations: reflexive and transitive (checked on arbitrary states), hence valid across any number of calls
+	if len(cct.Steps) > 0 {
+		hav := func(s *State) {
+			if cct.ModAll || len(cct.Modifies) == 0 {
+				f.havocAll(s)
+				for _, b := range clo.Bindings {
+					f.havocReachable(b, s)
+				}
+				return
+			}
+			menv := g.newEnv(pre, pre)
+			bindClo(menv)
+			for _, m := range cct.Modifies {
+				f.havocSpecTarget(m, menv, s)
+			}
+		}
+		s2 := st.clone()
+		hav(s2)
+		s3 := s2.clone()
+		hav(s3)
+		rel := func(cur, old *State, c *Clause) string {
+			e := g.newEnv(cur, old)
+			bindClo(e)
+			return e.trBool(c.Expr)
+		}
+		for _, c := range cct.Steps {
+			g.oblige("callpre", shortKey(relName(clo.Fn))+":"+c.Label+"_is_reflexive", f.props(), f.fn, reach, rel(pre, pre, c), c.Src, pos)
+			g.oblige("callpre", shortKey(relName(clo.Fn))+":"+c.Label+"_is_transitive", f.props(), f.fn, reach,
+				implies(and(rel(s2, pre, c), rel(s3, s2, c)), rel(s3, pre, c)), c.Src, pos)
+		}
+	}
+	// everything the closure may touch: its modifies clause when it has one, everything otherwise
+	if cct.ModAll || len(cct.Modifies) == 0 {
+		f.havocAll(st)
+		for _, b := range clo.Bindings {
+			f.havocReachable(b, st)
+		}
+	} else {
+		menv := g.newEnv(pre, pre)
+		bindClo(menv)
+		for _, m := range cct.Modifies {
+			f.havocSpecTarget(m, menv, st)
+		}
 	}
 	post := g.newEnv(st, pre)
 	bindClo(post)
 	for _, c := range cct.Preserves {
+		g.assume(implies(reach, post.trBool(c.Expr)))
+	}
+	for _, c := range cct.Steps {
 		g.assume(implies(reach, post.trBool(c.Expr)))
 	}
 	if resT == nil {
